@@ -21,7 +21,7 @@ def run(chk):
     thorough = chk.tier == "thorough"
     chk.cov["rule"] = ("flag predicates (defined bits only, gating of CONCAT/TATWEEL by their own buffer flag, break=>concat, uniform per cluster) on shapes of the corpus "
                        "fonts x random texts x 4 subsets of the PRODUCE flags (seeded by VERIF_SEED); redistribution experiment as a fixed-seed sweep (seed %d) with known "
-                       "failing instances listed one by one; buffer op correspondence incl. masks. non-trivial = some glyph carries a flag" % sweeps.SWEEPS["C04"]["seed"])
+                       "failing instances listed one by one; both on generated small-alphabet fonts too (harness/src/flaggen.rs, fixed seed %d, all four directions); buffer op correspondence incl. masks. non-trivial = some glyph carries a flag" % (sweeps.SWEEPS["C04"]["seed"], sweeps.GEN["C04"]["seed"]))
     pr = chk.prove(extra_targets=["Corr/BufferC.vo"])
     broken = []
     if chk.guards_failed:
@@ -79,7 +79,8 @@ def run(chk):
             fails.append(f)
     for cls, fs in sorted(per_class.items()):
         chk.known_finding(cls, "%d listed instance(s) of the redistribution sweep, e.g. font=%s req=[%s]" % (len(fs), fs[0]["font"], fs[0]["req"]))
-    chk.sample({"flag_summary": summary, "redistribution_summary": summary2})
+    gsum = sweeps.gen_sweep(chk, binp, "C04", fails, "generated_font_sweep")
+    chk.sample({"flag_summary": summary, "redistribution_summary": summary2, "generated_font_sweep_summary": gsum})
     chk.note("correspondence_disagreements", len(dis))
     for f in fails[:3]:
         chk.violation(f["kind"], f)
@@ -87,7 +88,7 @@ def run(chk):
         chk.violation("tie-or-proof-broken", {"broken": broken, "disagreements": dis[:8],
                       "note": "Props/C04.v (constants, propagate_flags shape) or the buffer correspondence no longer checks; the flag predicates and the redistribution sweep found no new failing input"},
                       no_input=True)
-    chk.cov["trusted_base"] = C.DEFAULT_TRUSTED_BASE + ["hook: src/hb/verif/buffer.rs", "corpus/C04-known-instances.json (instances collected on the committed tree by tools/collect_known.py)"]
+    chk.cov["trusted_base"] = C.DEFAULT_TRUSTED_BASE + ["hook: src/hb/verif/buffer.rs", "corpus/C04-known-instances.json and C04-known-gen-instances.json (instances collected on the committed tree by tools/collect_known.py)", "harness/src/flaggen.rs (font generator) and fontgen (sfnt writer)"]
     chk.assumptions = C.DEFAULT_ASSUMPTIONS + ["redistribution soundness for the whole engine is search-level (fixed corpus sweep); the theorems cover propagate_flags and the constants"]
 
 
